@@ -393,8 +393,11 @@ func (obj *Array) LoadForm() Object {
 		Symbol(":initial-contents"),
 		List{quoteSymbol, obj.AsList()},
 	}
+	// make-array makes an adjustable array unless told otherwise.
 	if obj.adjustable {
 		form = append(form, Symbol(":adjustable"), True)
+	} else {
+		form = append(form, Symbol(":adjustable"), nil)
 	}
 	return form
 }
